@@ -10,8 +10,14 @@ run_one() {  # label pid patch
   if ! git -C /repo apply --check "$abs" 2>/dev/null; then echo "$label: DOES-NOT-APPLY"; return; fi
   git -C /repo apply "$abs"
   out=$(./check "$pid" --tier quick 2>&1); rc=$?
+  demo=""
+  if [ $rc -eq 0 ] && [ -f "$(dirname "$abs")/demo.py" ]; then
+    # not flagged: does the change still violate the property on the current tree at all? (its own demonstration decides)
+    if (cd /repo && PYTHONPATH=/repo/src timeout 600 /venv/bin/python "$(dirname "$abs")/demo.py" >/dev/null 2>&1); then demo="demo-passes"; else demo="demo-fails"; fi
+  fi
   git -C /repo checkout -- .
   if [ $rc -eq 1 ]; then echo "$label: caught by $pid ($(echo "$out" | grep -c VIOLATION) violation lines; first: $(echo "$out" | grep -m1 VIOLATION | sed 's/.*# //' | cut -c1-110))";
+  elif [ $rc -eq 0 ] && [ "$demo" = "demo-passes" ]; then echo "$label: NEUTRALISED (applies, but its own demonstration no longer shows a violation on the current tree; $pid silent)";
   elif [ $rc -eq 0 ]; then echo "$label: MISSED by $pid"; else echo "$label: rc=$rc $(echo "$out" | tail -1)"; fi
 }
 if [ "$sel" = "  " ] || echo "$sel" | grep -q " mutants " || echo "$sel" | grep -qE " C[0-9]+ "; then
